@@ -116,12 +116,24 @@ def missingPass (now : Nat) (countMissing : Bool) (maxTsnRetransmits : Nat) (max
     let y := missingPass now countMissing maxTsnRetransmits maxRep rest x.1
     (x.2 :: y.1, y.2)
 
-/-- step 0, the late-SACK filter: the cumulative TSN is serially before `lowest − 1` (lowest =
-numerically first key of the BTreeMap) and so is every gap block end -/
+/-- `(x as i32)` as an order-preserving natural number -/
+def i32Key (x : UInt32) : Nat := (x + 0x80000000).toNat
+
+/-- `keys().min_by_key(|t| t.wrapping_sub(cum) as i32)`: the oldest outstanding TSN in serial order
+relative to `cum` (first of equal minima, in map order) -/
+def serialMin (cum : UInt32) : List SRec → Option SRec
+  | [] => none
+  | r :: rest =>
+    match serialMin cum rest with
+    | none => some r
+    | some m => if i32Key (m.tsn - cum) < i32Key (r.tsn - cum) then some m else some r
+
+/-- step 0, the late-SACK filter: the cumulative TSN is serially before `lowest − 1` (lowest = the
+serially oldest outstanding TSN) and so is every gap block end -/
 def lateSack (q : List SRec) (cum : UInt32) (gaps : List (UInt16 × UInt16)) : Bool :=
-  match q with
-  | [] => false
-  | lo :: _ => i32Neg (cum - (lo.tsn - 1)) && i32Neg (maxReportedOf cum gaps - lo.tsn)
+  match serialMin cum q with
+  | none => false
+  | some lo => i32Neg (cum - (lo.tsn - 1)) && i32Neg (maxReportedOf cum gaps - lo.tsn)
 
 /-- `apply_sack_to_sent_queue` -/
 def applySack (q : List SRec) (cum : UInt32) (gaps : List (UInt16 × UInt16)) (now : Nat)
